@@ -122,9 +122,10 @@ def verify_function(c, variant=None, vname='', start=None, split_at=None):
                 c.check_exit(ip, a, old, kind, res)
             else:
                 check_post(ip, c, a, old, kind, res)
-            if not st.feasible():
+            if not st.feasible_without_goals():
                 # the path turned out to be infeasible after its last branch (e.g. a loop invariant
-                # assumed at a cut contradicts the state the loop was entered with)
+                # assumed at a cut contradicts the state the loop was entered with) - judged on the path's own
+                # assumptions, NOT on the goals assumed after earlier obligations
                 st.obls = [o for o in st.obls if False]
                 return PathResult('cut', 'infeasible at end')
             # vacuity guard: the assumptions of a completed path must be satisfiable, i.e. the
@@ -332,6 +333,8 @@ def guarded_check(s, timeout_ms):
 
 
 _SLOW = {'n': 0}
+_SECOND = {'spent': 0.0}
+SECOND_BUDGET_S = float(os.environ.get('PYVC_SECOND_BUDGET', '400'))
 SLOW_BUDGET = int(os.environ.get('PYVC_SLOW_BUDGET', '6'))
 
 
@@ -408,9 +411,13 @@ def discharge(o, timeout_ms=QUICK_TIMEOUT_MS, second_opinion=False):
             v = run_z3_old(smt2, timeout_ms)
             if v == 'proved':
                 o.verdict, o.backend = v, 'z3-4.8.12'
-    if second_opinion and o.verdict == 'proved' and not o.backend.startswith('cvc5'):
+    if second_opinion and o.verdict == 'proved' and not o.backend.startswith('cvc5') and _SECOND['spent'] < SECOND_BUDGET_S:
+        # thorough tier: cvc5 re-decides what z3 proved (10 s each, within a per-worker time budget so that the tier
+        # terminates; the evidence says how many obligations got a second opinion)
+        t1 = time.time()
         smt2 = '(set-logic ALL)\n' + s.to_smt2()
-        v = run_cvc5(smt2, timeout_ms)
+        v = run_cvc5(smt2, 10000)
+        _SECOND['spent'] += time.time() - t1
         o.info = dict(o.info or {}, cvc5=v)
     o.ms = (time.time() - t0) * 1000
     return o
